@@ -3,6 +3,7 @@ package codec
 import (
 	"fmt"
 	"math/rand"
+	"os"
 	"strings"
 
 	"verif/harness/gen"
@@ -172,13 +173,16 @@ func Run(cfg Config) *hx.Result {
 		resProp = "C10"
 	}
 	r := hx.NewResult(resProp, cfg.Module, cfg.Seed, cfg.Tier)
-	if !gen.Generated {
+	// VERIF_FORCE_INTERP=1: run the interpreter where the bindings exist too (it must then agree with
+	// the model exactly as the bindings do — the way the interpreter itself is validated)
+	interp := (!gen.Generated && cfg.Module == "root") || os.Getenv("VERIF_FORCE_INTERP") == "1"
+	if !gen.Generated && !interp {
 		r.Rule = "generated bindings missing"
 		r.OracleFail(hx.Case{Sig: "harness built without generated bindings", Op: "-", Impl: "-"})
 		return r
 	}
 	env := Corpus()
-	x := &runner{cfg: cfg, r: r, env: env, b: &Bridge{Env: env}, rng: hx.Rng(cfg.Seed, cfg.Prop)}
+	x := &runner{cfg: cfg, r: r, env: env, b: &Bridge{Env: env, Interp: interp}, rng: hx.Rng(cfg.Seed, cfg.Prop)}
 	x.confirmTables()
 	switch cfg.Prop {
 	case "C01":
